@@ -50,6 +50,7 @@ class StepBudgetExceeded(Exception):
 
 MAX_SOLVER_STEPS = 30_000
 MAX_CALLBACK_CALLS = 150_000
+MAX_RUN_CALLBACK_CALLS = 400_000
 
 
 # --------------------------------------------------------------------------- seams
@@ -341,6 +342,7 @@ class World:
             self.minerals.append(self._make_mineral(i, ms))
         self.log = []
         self.stats = {}
+        self.truncated_at = None
 
     # ---- construction
     def _make_mineral(self, idx, ms):
@@ -910,10 +912,20 @@ class World:
         return rec
 
     def run(self, ops, after_op=None):
+        """Execute the op list.  A run is bounded in work, not in wall time: once the updates
+        of this world have made more than MAX_RUN_CALLBACK_CALLS velocity-gradient calls the
+        remaining ops are not executed (self.truncated_at records where), so that one long,
+        finely partitioned tight-solver history cannot run into the per-run watchdog."""
+        work = 0
         for i, op in enumerate(ops):
             rec = self.run_op(i, op)
             if after_op is not None:
                 after_op(self, i, op, rec)
+            for r in (rec.get("sub") or [rec]):
+                work += int(r.get("nL") or 0)
+            if work > MAX_RUN_CALLBACK_CALLS and i + 1 < len(ops):
+                self.truncated_at = i + 1
+                break
         return self.log
 
     # ---- digest of everything observable
